@@ -1,6 +1,7 @@
 //! Reads the registries of a `Receiver` that the public API does not expose from its `Debug` output
 //! (no hook needed): `fdt_current` ids, `|fdt_receivers|`, `|objects_completed|`, bytes held by the FDT
-//! writers, and the FDT instance every live object is attached to.
+//! writers, and the FDT instance every live object is attached to.  A field that is not found is an ERROR
+//! (`Err(field)`, reported as oracle class `harness:scrape-miss`, which is never registered), not a zero.
 
 /// splits `s` (the inside of a `{..}` / `[..]`) into its top-level comma separated items
 fn split_top(s: &str) -> Vec<&str> {
@@ -57,18 +58,19 @@ fn opt_u32(v: &str) -> Option<u32> {
     v.strip_prefix("Some(").and_then(|x| x.strip_suffix(')')).and_then(|x| x.trim().parse().ok())
 }
 
-/// bytes held by the `FdtWriterInner` of one `FdtReceiver` debug string
-fn fdt_bytes(fr: &str) -> usize {
+/// bytes held by the `FdtWriterInner` of one `FdtReceiver` debug string; `Err` = the Debug output does not
+/// have the expected shape (a scrape miss must never read as "0 bytes")
+fn fdt_bytes(fr: &str) -> Result<usize, String> {
     match fr.find("FdtWriterInner {") {
         Some(p) => {
             let rest = &fr[p..];
             let items = split_top(inside_first(rest));
             match field(&items, "data") {
-                Some(d) => split_top(inside(d)).len(),
-                None => 0,
+                Some(d) => Ok(split_top(inside(d)).len()),
+                None => Err("FdtWriterInner.data".to_string()),
             }
         }
-        None => 0,
+        None => Err("FdtWriterInner".to_string()),
     }
 }
 
@@ -107,35 +109,36 @@ fn inside_first(s: &str) -> &str {
     ""
 }
 
-pub fn probe(dbg: &str) -> String {
+/// `Err(field)` = SCRAPE MISS: a field this reader relies on is not in the Debug output (a refactoring of the
+/// crate renamed / removed it).  The caller turns that into a loud harness error, never into zeros.
+pub fn probe(dbg: &str) -> Result<String, String> {
     let top = split_top(inside(dbg));
+    let need = |name: &str| field(&top, name).ok_or_else(|| format!("Receiver.{}", name));
     let mut att: Vec<(u128, String)> = Vec::new();
-    if let Some(objs) = field(&top, "objects") {
-        for e in split_top(inside(objs)) {
-            // `<toi>: ObjectReceiver { .. }`
-            if let Some(c) = e.find(": ") {
-                let toi: u128 = e[..c].trim().parse().unwrap_or(0);
-                let items = split_top(inside(&e[c + 2..]));
-                let id = field(&items, "fdt_instance_id").and_then(opt_u32);
-                att.push((toi, format!("{}:{}", toi, id.map(|x| x.to_string()).unwrap_or_else(|| "-".into()))));
-            }
-        }
+    for e in split_top(inside(need("objects")?)) {
+        // `<toi>: ObjectReceiver { .. }`
+        let c = e.find(": ").ok_or("objects entry")?;
+        let toi: u128 = e[..c].trim().parse().map_err(|_| "objects key".to_string())?;
+        let items = split_top(inside(&e[c + 2..]));
+        let raw = field(&items, "fdt_instance_id").ok_or("ObjectReceiver.fdt_instance_id")?;
+        let id = if raw.trim() == "None" { None } else { Some(opt_u32(raw).ok_or("ObjectReceiver.fdt_instance_id value")?) };
+        att.push((toi, format!("{}:{}", toi, id.map(|x| x.to_string()).unwrap_or_else(|| "-".into()))));
     }
     att.sort_by_key(|x| x.0);
-    let cp = field(&top, "objects_completed").map(|m| split_top(inside(m)).len()).unwrap_or(0);
+    let cp = split_top(inside(need("objects_completed")?)).len();
     let mut fb = 0usize;
-    let frs: Vec<&str> = field(&top, "fdt_receivers").map(|m| split_top(inside(m))).unwrap_or_default();
+    let frs: Vec<&str> = split_top(inside(need("fdt_receivers")?));
     for f in &frs {
-        fb += fdt_bytes(f);
+        fb += fdt_bytes(f)?;
     }
-    let fcs: Vec<&str> = field(&top, "fdt_current").map(|m| split_top(inside(m))).unwrap_or_default();
+    let fcs: Vec<&str> = split_top(inside(need("fdt_current")?));
     let mut ids = Vec::new();
     for f in &fcs {
-        fb += fdt_bytes(f);
+        fb += fdt_bytes(f)?;
         let items = split_top(inside(f));
-        ids.push(field(&items, "fdt_id").unwrap_or("?").to_string());
+        ids.push(field(&items, "fdt_id").ok_or("FdtReceiver.fdt_id")?.to_string());
     }
-    format!(
+    Ok(format!(
         "fc={}:{} fr={} cp={} fb={} att={}",
         fcs.len(),
         if ids.is_empty() { "-".to_string() } else { ids.join(",") },
@@ -143,5 +146,12 @@ pub fn probe(dbg: &str) -> String {
         cp,
         fb,
         if att.is_empty() { "-".to_string() } else { att.iter().map(|x| x.1.clone()).collect::<Vec<_>>().join(",") }
-    )
+    ))
+}
+
+/// one number of the probe line (`fr`, `cp`, `fb`); `Err` on a scrape miss
+pub fn probe_num(dbg: &str, key: &str) -> Result<usize, String> {
+    let line = probe(dbg)?;
+    let pat = format!("{}=", key);
+    line.split(' ').find_map(|x| x.strip_prefix(pat.as_str())).and_then(|x| x.parse().ok()).ok_or_else(|| format!("probe line has no {}", key))
 }
